@@ -6,7 +6,7 @@ import Lumina.Spec.C45
 
 namespace Lumina.Proofs.AbciProofs
 open Lumina.Util Lumina.Model.AbciProofs
-open Lumina.Spec.C45 (linked nextRoots candidates opsOf decimal)
+open Lumina.Spec.C45 (linked nextRoots candidates opsOf decimal backed)
 
 theorem findExist_mem (key : Bytes) (es : List BatchEntry) (e : ExistenceProof)
     (h : findExist key es = some e) :
@@ -177,6 +177,36 @@ theorem bankKey_eq (addr : Bytes) : Lumina.Spec.C45.bankKey addr = bankKey addr 
   rw [show Lumina.Spec.C45.ascii "utia" = BOND_DENOM by decide]
 
 theorem bank_eq : Lumina.Spec.C45.bank = BANK := by decide
+
+
+/-- what `backed` says, spelled out -/
+theorem backed_links (vm : VM) (addr appHash : Bytes) (r : AbciResponse) (n : Nat)
+    (h : Lumina.Spec.C45.backed vm addr appHash (some r) n = true) :
+    ∃ op0 op1 r0, opsOf (r.proofOps.getD []) = some [op0, op1] ∧ op0.key = bankKey addr ∧ op1.key = BANK ∧
+      r0 ∈ candidates op1.proof ∧ vm op0.proof op0.spec r0 (bankKey addr) r.value = true ∧
+      vm op1.proof op1.spec appHash BANK r0 = true ∧ decimal r.value = some n := by
+  simp only [backed, Bool.and_eq_true, beq_iff_eq] at h
+  obtain ⟨⟨-, hch⟩, hdec⟩ := h
+  cases hops : opsOf (r.proofOps.getD []) with
+  | none => simp [hops] at hch
+  | some chain =>
+    simp only [hops, Bool.and_eq_true] at hch
+    obtain ⟨-, hl⟩ := hch
+    rw [bankKey_eq, bank_eq] at hl
+    match chain, hl with
+    | [], hl => simp [linked] at hl
+    | [op0], hl =>
+      simp only [linked, nextRoots, Bool.and_eq_true, beq_iff_eq, List.any_eq_true] at hl
+      obtain ⟨-, x, -, -, hx⟩ := hl
+      simp [linked] at hx
+    | op0 :: op1 :: op2 :: rest, hl =>
+      simp only [linked, nextRoots, Bool.and_eq_true, beq_iff_eq, List.any_eq_true] at hl
+      obtain ⟨-, x, -, -, -, y, -, -, hy⟩ := hl
+      simp [linked] at hy
+    | [op0, op1], hl =>
+      simp only [linked, nextRoots, Bool.and_eq_true, beq_iff_eq, List.any_eq_true, List.mem_singleton] at hl
+      obtain ⟨hk0, r0, hr0, hv0, hk1, x, rfl, hv1, -⟩ := hl
+      exact ⟨op0, op1, r0, rfl, hk0, hk1, hr0, hv0, hv1, hdec⟩
 
 
 end Lumina.Proofs.AbciProofs
